@@ -208,10 +208,13 @@ static std::string foreign_json(const char * what, const char * tname)
 
 /* the host's duty after a run: fetch the returned value and reset the stop condition that a
  * `return` statement leaves set (documented: bloc_reset_stop) */
+static bool g_nodrop = false;    /* a host that resets the stop condition and never collects the returned value */
+
 static std::string ret_json(Context& ctx)
 {
   std::string o;
   if (ctx.returnCondition()) { o += ",\"rc\":1"; ctx.returnCondition(false); }
+  if (g_nodrop) return o;
   Value * r = ctx.dropReturned();
   if (!r) return o;
   std::string d; dump_value(d, *r);
@@ -1031,6 +1034,7 @@ static std::string run_op(const std::vector<std::string>& a)
     return "{\"r\":\"ok\"}";
   }
   if (op == "isolate") { g_isolate = true; return "{\"r\":\"ok\"}"; }
+  if (op == "nodrop") { g_nodrop = (a.size() > 1 && a[1] == "1"); return "{\"r\":\"ok\"}"; }
   if (op == "deinit") { bloc_deinit_plugins(); return "{\"r\":\"ok\"}"; }
   if (op == "leakcheck")
   {
